@@ -6,6 +6,18 @@ func register(c *PropConfig) { propConfigs[c.ID] = c }
 
 func init() {
 	register(&PropConfig{
+		ID:       "C01",
+		Packages: []string{"."},
+		Corpus:   true,
+		Extra:    func(r *Run) { r.VerifyGenerated(r.corpus, "C01") },
+		Assume: []string{
+			"HTML tokenizer facts (contracts/lang/html.lang): in the data state only '<' starts markup and '&' a reference; in a double-quoted attribute value only the quote ends it and '&' starts a reference",
+			"html.EscapeString: result in HTML_ESCAPED and html.UnescapeString inverts it",
+			"CR and NUL are preprocessed by the HTML input stream (CR->LF, NUL flagged): byte-verbatim survival of those two is outside any escaper",
+			"programs: the regenerated corpus, not all templates",
+		},
+	})
+	register(&PropConfig{
 		ID: "C13",
 		Replay: func(r *Run, o *Obligation) *ReplayResult {
 			if r.replayCache == nil {
@@ -63,6 +75,8 @@ func init() {
 		ID:       "C03",
 		Replay:   replayC03,
 		Packages: []string{"./runtime", "."},
+		Corpus:   true,
+		Extra:    func(r *Run) { r.VerifyGenerated(r.corpus, "C03") },
 		Assume: []string{
 			"SAFE_IN_SQ / SAFE_IN_DQ / SAFE_IN_BACKTICK / NO_SCRIPT_END (contracts/lang/js.lang) formalise the ECMAScript string / template lexical rules and the HTML script-data tokenizer; written from the standards",
 			"utf8.DecodeRuneInString: 1<=w<=4, w<=len; r<0x80 iff first byte <0x80 and then w==1 and r is that byte; otherwise all consumed bytes are >=0x80",
@@ -71,9 +85,12 @@ func init() {
 		},
 	})
 	register(&PropConfig{
-		ID:       "C04",
-		Replay:   replayC04,
-		Packages: []string{"."},
+		ID:         "C04",
+		Replay:     replayC04,
+		Packages:   []string{"."},
+		Corpus:     true,
+		CorpusOnly: nil,
+		Extra:      func(r *Run) { r.VerifyGenerated(r.corpus, "C04") },
 		Assume: []string{
 			"URL_BROWSER_OK (contracts/lang/url.lang) formalises WHATWG scheme extraction; written from the standard",
 			"strings.IndexRune / ContainsRune / EqualFold behave as their models state (EqualFold = membership in the simple-fold closure, derived from unicode.SimpleFold)",
